@@ -2,7 +2,7 @@
 import ast
 
 from vstat.loader import AnalysisError
-from vstat.terms import IT, builder, show, SELF, NONE, G, alts, walk, mentions, phi, strip_none
+from vstat.terms import IT, CMP, ordered, builder, show, SELF, NONE, G, alts, walk, mentions, phi, strip_none
 from vstat.guards import path_conditions, exception_name
 from vstat.cfg import cfg_of, EXIT, RAISE
 from vstat.sigs import bind
@@ -26,12 +26,12 @@ ASSUME = ["monotone cdfs (C05 residue); the numeric content is not decided", "th
 def run(prog, rep):
     rep.explanation = EXPL
     rep.assumptions = ASSUME
-    cellpdf(prog, rep)
-    joint(prog, rep)
-    compute(prog, rep)
-    select(prog, rep)
-    grid(prog, rep)
-    ctor_stores(prog, rep, "C02.ctor", HDC, ["model", "alpha", "limits", "deltas"])
+    rep.part(cellpdf, prog, rep)
+    rep.part(joint, prog, rep)
+    rep.part(compute, prog, rep)
+    rep.part(select, prog, rep)
+    rep.part(grid, prog, rep)
+    rep.part(ctor_stores, prog, rep, "C02.ctor", HDC, ["model", "alpha", "limits", "deltas"])
     rep.expect_min("C02.ctor", 2)
     rep.expect_min("C02.grid", 5)
     rep.expect_min("C02.cellpdf", 7)
@@ -41,7 +41,8 @@ def run(prog, rep):
     rep.expect_min("C02.select", 5)
     rep.expect_min("C02.warn", 3)
     rep.expect_min("C02.nan", 1)
-
+    from .purity import row as _stateless_row
+    rep.part(_stateless_row, prog, rep, "C02", 4)
 
 def half_cell(cd, dx, sign):
     return ("bin", sign, cd, ("bin", "*", ("const", 0.5), dx))
@@ -365,12 +366,13 @@ def select(prog, rep):
         d, flat = is_desc_sort(SI)
         rep.check(d, "C02.select", f"{q}:order", site, "indices of a descending stable sort of the flattened array",
                   f"cells must be taken in order of DEcreasing density with a stable sort: argsort(flat, kind='mergesort'|'stable')[::-1]; found {show(SI)[:140]}")
-        op_ok = c[1] == "<=" and c[3] == limit
-        cs = c[2]
+        o = ordered(c) or (c[2], c[3], None)
+        op_ok = o[1] == limit and o[2] is False
+        cs = o[0]
         cs_ok = cs == ("call", G("numpy.cumsum"), (("sub", flat, SI),), ()) if flat is not None else False
         rep.check(op_ok, "C02.select", f"{q}:operator", site, "cum_sum <= limit",
                   f"the enclosed probability must be at most the limit and miss it by less than one cell: mask must be 'cum_sum <= limit' "
-                  f"(with '<' an exact hit loses a cell, with '>'/'>=' the complement is selected); found '{c[1]}' against {show(c[3])[:40]}")
+                  f"(with '<' an exact hit loses a cell, with '>'/'>=' the complement is selected); found {show(c)[:80]}")
         rep.check(cs_ok, "C02.select", f"{q}:cumsum", site, "cum_sum = cumsum(flat[sort_inds]) of the same sort indices",
                   f"the cumulative sum must run over the values in the SAME sorted order the mask is applied to: cumsum(flat[sort_inds]); found {show(cs)[:160]}")
         ok = True
@@ -392,8 +394,8 @@ def select(prog, rep):
     warns = [st for st in cfg.all_stmts() if isinstance(st, ast.Expr) and isinstance(st.value, ast.Call) and _is_warn(b.term(st.value, st), "RuntimeWarning")]
     okw = False
     if warns and sel[0] == "sub" and sel[2][0] == "cmp":
-        cs = sel[2][2]
-        want = ("cmp", "<", ("sub", cs, ("const", -1)), limit)
+        cs = (ordered(sel[2]) or (sel[2][2],))[0]
+        want = CMP("<", ("sub", cs, ("const", -1)), limit)
         pcw = pcs.of(warns[0])
         # literals that also hold after the warning's if-statement come from earlier raising guards; the rest is the warning's own condition
         enc = cfg.enclosing(warns[0])
